@@ -120,8 +120,12 @@ pub fn emit_filtered(
         for (ci, wi) in g.0.extra_constant_wires() {
             extra.push((rep[r * nw + wi], consts_eval[base + ci][r].to_canonical_u64()));
         }
-        if !only_gate.is_empty() && !format!("{:?}", g.0.id()).trim_matches('"').starts_with(only_gate) {
-            continue;
+        if !only_gate.is_empty() {
+            let id = format!("{:?}", g.0.id());
+            let id = id.trim_matches('"');
+            if !only_gate.split('|').any(|p| id.starts_with(p)) {
+                continue;
+            }
         }
         if wrote {
             s.push(',');
